@@ -46,6 +46,24 @@ AX_FLOAT = {
 }
 
 
+def write_coqproject():
+    """_CoqProject lists every theories/*.v and generated/*.v (props are compiled per check)."""
+    lines = ["-R theories Sketchnu", "-R generated Sketchnu",
+             "-arg -w -arg -notation-overridden,-deprecated-hint-without-locality,-deprecated-instance-without-locality"]
+    for sub in ("generated", "theories"):
+        for f in sorted(os.listdir(os.path.join(COQ, sub))):
+            if f.endswith(".v"):
+                lines.append(f"{sub}/{f}")
+    txt = "\n".join(lines) + "\n"
+    p = os.path.join(COQ, "_CoqProject")
+    old = open(p).read() if os.path.exists(p) else None
+    if old != txt:
+        with open(p, "w") as f:
+            f.write(txt)
+        return True
+    return False
+
+
 def log(*a):
     print(*a, file=sys.stderr, flush=True)
 
@@ -144,6 +162,11 @@ class Ctx:
                     depth = max(0, depth - 1)
                 elif depth == 0 and re.match(r"^(Variable|Variables|Hypothesis|Hypotheses|Context)\b", s):
                     bad.append(f"{f}: top-level {s.split()[0]}")
+        if write_coqproject():
+            try:
+                os.remove(os.path.join(COQ, "Makefile"))
+            except OSError:
+                pass
         proj = open(os.path.join(COQ, "_CoqProject")).read()
         if FORBIDDEN.search(proj):
             bad.append("_CoqProject: forbidden flag")
@@ -176,7 +199,7 @@ class Ctx:
             if changed:
                 log("regenerated from /repo:", changed)
             mk = os.path.join(COQ, "Makefile")
-            if not os.path.exists(mk) or os.path.getmtime(mk) < os.path.getmtime(os.path.join(COQ, "_CoqProject")):
+            if write_coqproject() or not os.path.exists(mk):
                 rc, out, err = run(["coq_makefile", "-f", "_CoqProject", "-o", "Makefile"], 120, cwd=COQ)
                 if rc != 0:
                     self.fail_machinery("coq_makefile failed: " + err)
